@@ -63,10 +63,17 @@ func main() {
 			os.WriteFile(fmt.Sprintf("%s/slow-%d.smt2", os.Getenv("VERIF_SLOWLOG"), n), []byte(fmt.Sprintf("; %v %s\n%s", d, verdict, script)), 0o644)
 		}
 	}
+	if v, ok := cfg.Params["preempt"]; ok {
+		cfg.Preempt = v
+	}
+	if v, ok := cfg.Params["max_decisions"]; ok {
+		cfg.MaxDecisions = v
+	}
 	res := gosym.Explore(p, fn, cfg)
 	fmt.Printf("paths=%d steps=%d obligations=%d discharged=%d solver_calls=%d solver_time=%v wall=%v\n",
 		res.Paths, res.Steps, res.Obligations, res.Discharged, res.SolverCalls, res.SolverTime, res.Wall)
 	fmt.Println("outcomes:", res.Outcomes)
+	fmt.Println("decision kinds:", res.DecisionKinds, "maxdepth:", res.MaxDepth)
 	fmt.Println("reached:", res.Reached)
 	keys := []string{}
 	for k := range res.Inconclusive {
